@@ -1584,6 +1584,16 @@ def check(name, cond, safety=False):
                 r = s0.check()
                 s = s0
                 backend = 'z3'
+    if r == z3.unknown:
+        # last resort before giving up: one retry with a 4x budget (verdicts must not flip when the machine is busy)
+        s = z3.Solver()
+        s.set('timeout', 4 * ctx.vc_timeout_ms)
+        for g in ackermannize(list(ctx.pc) + [z3.Not(cz)]):
+            s.add(g)
+        r2 = s.check()
+        if r2 == z3.unsat:
+            r = z3.unsat
+            backend = 'z3-ack-retry'
     dt = time.time() - t
     ctx.solver_s += dt
     info = {'t': dt, 'safety': safety, 'path': ''.join('T' if d else 'F' for d in ctx.trail), 'backend': backend}
